@@ -12,7 +12,8 @@
 (* returned, which Node lookups (by provider id) succeeded or failed,      *)
 (* whether the lifecycle controller saw a capacity error (its delete is    *)
 (* then not the liveness check's).  The guard is evaluated on the stored   *)
-(* object as it was just before the delete.                                *)
+(* object as it was just before the delete, at the delete's instant in     *)
+(* milliseconds (event field tms).                                         *)
 (***************************************************************************)
 EXTENDS ReapersGuards, Json, IOUtils
 
@@ -59,7 +60,7 @@ DeleteChecks(c, t) ==
                   SigGarbageCollection(c, ok, lst, lk, st.nodes))
     ELSE IF Ev.actor = LiveActor
       THEN (IF st.rec.ice THEN <<>>       \* capacity error: the launch path's delete, judged by C14
-            ELSE Chk(G_C16_Liveness(c, t, st.cfg.launchTimeout, st.cfg.regTimeout), "G_C16_Liveness", SigLiveness(c)))
+            ELSE Chk(G_C16_LivenessMs(c, t, st.cfg.launchTimeout, st.cfg.regTimeout), "G_C16_Liveness", SigLiveness(c)))
     ELSE Chk(G_C16_Repair(c, RepairNode, t, st.cfg.policies, st.nodes), "G_C16_Repair",
              SigRepair(c, RepairNode, t, st.cfg.policies, st.nodes))
 
@@ -82,8 +83,8 @@ TApi ==
            reap == ok /\ Ev.verb = "delete" /\ Ev.actor \in Reapers /\ pre.exists /\ ~pre.deleting
        IN /\ st' = [st EXCEPT !.claims = IF isClaim /\ ok THEN Upd(@, Ev.name, post) ELSE @,
                               !.nodes = IF isNode /\ ok THEN Upd(@, Ev.name, post) ELSE @]
-          /\ viol' = viol \o (IF reap /\ isClaim THEN DeleteChecks(pre, Ev.t)
-                              ELSE IF reap /\ isNode THEN NodeDeleteChecks(pre, Ev.t) ELSE <<>>)
+          /\ viol' = viol \o (IF reap /\ isClaim THEN DeleteChecks(pre, Ev.tms)
+                              ELSE IF reap /\ isNode THEN NodeDeleteChecks(pre, Ev.tms) ELSE <<>>)
 
 TEnv ==
     /\ Ev.e = "Env"
